@@ -40,6 +40,8 @@ Section ModDefs.
     match a, G with x :: a', g :: G' => x • g + msm a' G' | _, _ => m0 end.
 
   Definition msub (a b : MO) : MO := a + (- b).
+  (* scaling the points instead of the scalars *)
+  Definition pscale (c : list K) (G : list MO) : list MO := map2 smul c G.
   Definition msum (l : list MO) : MO := fold_right madd m0 l.
 End ModDefs.
 Infix "-" := msub : M_scope.
